@@ -723,11 +723,17 @@ SUBCHECKS = [
                   "y in {correct, negated, y+p (small-y points), off-curve, 0}, prefix natural / 0..7 / any byte, lengths cut / extended / "
                   "prefix dropped, and raw strings of 0..70 bytes: keys.public / Key.from_sec accept iff the strict reference accepts, "
                   "with the same pair, flag and re-encoding; non-trivial = anything but a plain wrong length"),
+    SubCheck("sec_strict_python_O", subproc.optimized_variant("checks.c10_keyenc", "o_sec_strict"), strategy=s_sec_blobs, budget=(500, 20000), nontrivial=nt_sec_strict,
+             rule="the sec_strict cases evaluated in a child interpreter started with PYTHONOPTIMIZE=1 (python -O: assert statements are "
+                  "compiled away, so validation written as an assert vanishes; the child asserts that mode)"),
     SubCheck("construct_all_networks", o_construct, cases=cases_construct, exhaustive=True,
              rule="every network x exponents {0,-1,-2,-n,n,n+1,n+2,2n,p,2^256-1,2^256,2^256+1,2^300,1,n-1} through keys.private, a WIF "
                   "carrying it, parse.secret_exponent; None coordinates, off-curve pairs, a valid pair through keys.public"),
     SubCheck("construct_generated", o_construct, strategy=s_construct, budget=(1500, 80000),
              rule="generated exponents around 0 and n, above n, negative; public pairs on curve / y perturbed / x without a point / None"),
+    SubCheck("construct_python_O", subproc.optimized_variant("checks.c10_keyenc", "o_construct"), strategy=s_construct, budget=(300, 10000),
+             rule="the construct_generated cases evaluated in a child interpreter started with PYTHONOPTIMIZE=1 (python -O: assert statements are "
+                  "compiled away, so validation written as an assert vanishes; the child asserts that mode)"),
     SubCheck("der_boundaries", o_der, cases=cases_der_boundaries, exhaustive=True, nontrivial=nt_der,
              rule="r, s over {0, 2^256-1, 0x7f.., 0x7fff.., 0x80.., 0x80ff.. at every length 1..32}: sigencode_der == minimal DER, decode in "
                   "both modes returns (r,s); with 0-4 junk bytes appended after the sequence, and inside it after s: strict refuses"),
